@@ -1,6 +1,6 @@
 (* C08: MTZ files written by gemmi read back bit-identically, in either byte order.
    Statements only; proofs are in Mtz/FmtProofs.v, Mtz/HeaderProofs.v, Mtz/DataProofs.v. *)
-From GV Require Import Base.Str Mtz.Fmt Mtz.FmtProofs Mtz.Header Mtz.HeaderProofs Mtz.Data Mtz.DataProofs.
+From GV Require Import Base.Str Mtz.Fmt Mtz.FmtProofs Mtz.Header Mtz.HeaderProofs Mtz.ParseProofs Mtz.RoundTrip Mtz.Data Mtz.DataProofs.
 Local Open Scope Z_scope.
 
 (* Every header record emitted is exactly 80 bytes and no store of the writer leaves char buf[81]
@@ -49,3 +49,33 @@ Theorem header_offset_arithmetic : forall ncol nrefl,
   4 * (hdr_off ncol nrefl - 1) = 80 + 4 * (ncol * nrefl).
 Proof. exact header_offset_arith. Qed.
 Print Assumptions header_offset_arithmetic.
+
+(* PARTIAL header round trip: proved per record for NCOL (column/reflection/batch counts), COLUMN (label, type,
+   dataset id; min/max abstract), PROJECT (dataset id and name) and the batch TITLE. Not proved here: SORT, SYMINF,
+   COLSRC, CRYSTAL/DATASET, BH, history lines and the fold over the whole record list (those are covered by the
+   byte-exact correspondence of the parser model with gemmi only). *)
+Theorem header_roundtrip_partial :
+  (forall st a b c, 0 <= c <= 10000000 -> (length (pr_ncol a b c) <= 80)%nat ->
+     parse_record st (write_rec (pr_ncol a b c)) = set_ncol st a b c) /\
+  (forall st c, FitsColumn c ->
+     parse_record st (write_rec (pr_column c)) =
+     set_cols st (mkPcol (c_label c) (c_type c) (c_ds c) [] :: p_cols st)) /\
+  (forall st id name, name <> [] -> wordy name -> (length (pr_dsname k_PROJECT id name) <= 80)%nat ->
+     parse_record st (write_rec (pr_dsname k_PROJECT id name)) = set_dss st (mkPds id name [] [] :: p_dss st)) /\
+  (forall b, Forall (fun c => c <> 0) (b_title b) -> (length (b_title b) <= 70)%nat ->
+     is_cspace (cur (rev (b_title b))) = false ->
+     parse_btitle (write_rec (pr_btitle b)) = b_title b).
+Proof. exact header_roundtrip_lemma. Qed.
+Print Assumptions header_roundtrip_partial.
+
+(* the snapshot's reader kept the keyword: the batch title did not survive a write/read cycle *)
+Theorem batch_title_snapshot_refuted : exists b : batch,
+  parse_btitle_orig (write_rec (pr_btitle b)) <> b_title b.
+Proof. exact btitle_orig_refuted. Qed.
+Print Assumptions batch_title_snapshot_refuted.
+
+(* "%<w>d" of any integer is read back by simple_atoi, whatever non-digit follows *)
+Theorem int_field_roundtrip : forall w n r, is_digit (cur r) = false -> simple_atoi (fmt_d w n ++ r) = (n, r).
+Proof. exact atoi_fmt_d. Qed.
+Print Assumptions int_field_roundtrip.
+
